@@ -304,13 +304,16 @@ def shouldSetPN (lang : Lang) (c : FV) : Bool :=
   | .en => c ≠ .str "gen".toList
   | .fr => true
 
-/-- Terminal.py:236-266: the pronoun part of the request. Returns the terminal (properties set "for verb
-    agreement") and the request. `rows` is the declension in force. -/
-def proKeyVals (t : Term) (rows : List Row) (g n : FV) (kv : KeyVals) : Except Crash (Term × KeyVals) := do
-  let c : FV := match t.pC with | some v => v | none => .none
-  let (t, kv) := if c ≠ .none then (if badCase t.lang c then (t.warn, kv) else (t, kv.set Feat.c c)) else (t, kv)
-  let tn : FV := match t.pTn with | some v => v | none => .none
-  let (t, kv) := if tn ≠ .none then (if c ≠ .none then (t.warn, kv) else (t, kv.set Feat.tn tn)) else (t, kv)
+/-- Terminal.py:237-240: `c` given — rejected for this language (warning) or added to the request -/
+def proCaseStep (t : Term) (kv : KeyVals) (c : FV) : Term × KeyVals :=
+  if c ≠ .none then (if badCase t.lang c then (t.warn, kv) else (t, kv.set Feat.c c)) else (t, kv)
+
+/-- Terminal.py:241-246: `tn` given — ignored with a warning when `c` is given too, else added to the request -/
+def proTonicStep (t : Term) (kv : KeyVals) (c tn : FV) : Term × KeyVals :=
+  if tn ≠ .none then (if c ≠ .none then (t.warn, kv) else (t, kv.set Feat.tn tn)) else (t, kv)
+
+/-- Terminal.py:247-266: the `moi`/`me` special case, the person fixed by a tonic lemma, the default `tn=""` -/
+def proPersonStep (t : Term) (rows : List Row) (g n c tn : FV) (kv : KeyVals) : Except Crash (Term × KeyVals) :=
   if c ≠ .none ∨ tn ≠ .none then
     if t.lemma = tonicPe1 t.lang then
       let kv := if t.getG = .none then kv.del Feat.g else kv
@@ -331,23 +334,48 @@ def proKeyVals (t : Term) (rows : List Row) (g n : FV) (kv : KeyVals) : Except C
   else
     if t.lemma ≠ "on".toList then pure (t, kv.set Feat.tn (.str [])) else pure (t, kv)
 
+/-- Terminal.py:236-266: the pronoun part of the request. Returns the terminal (properties set "for verb
+    agreement") and the request. `rows` is the declension in force. -/
+def proKeyVals (t : Term) (rows : List Row) (g n : FV) (kv : KeyVals) : Except Crash (Term × KeyVals) :=
+  let c : FV := match t.pC with | some v => v | none => .none
+  let tn : FV := match t.pTn with | some v => v | none => .none
+  let s1 := proCaseStep t kv c
+  let s2 := proTonicStep s1.1 s1.2 c tn
+  proPersonStep s2.1 rows g n c tn s2.2
+
+/-- Terminal.py:226-229: the person of the request -/
+def reqPerson (t : Term) (setPerson : Bool) : Except Crash Int :=
+  if setPerson then (match t.getPe with | .none => pure 3 | p => intOf p) else pure 3
+
+/-- Terminal.py:230 -/
+def baseKeyVals (setPerson : Bool) (pe : Int) (g n : FV) : KeyVals :=
+  if setPerson then [(Feat.pe, .int pe), (Feat.g, g), (Feat.n, n)] else [(Feat.g, g), (Feat.n, n)]
+
+/-- Terminal.py:231-233: a majestic determiner may change its owner or its lemma; the declension is then re-read -/
+def majesticStep (rules : Rules) (lex : Lex) (t : Term) (table : Table) (pe : Int) (n : FV) :
+    Except Crash (Term × List Row) :=
+  if t.pos ≠ .N ∧ t.isMajestic then do
+    let (t1, reread) ← checkMajestic rules lex t pe n
+    if reread then
+      match t1.tab with
+      | none => throw Crash.keyError
+      | some tb => match lookup tb rules with
+        | none => throw Crash.keyError
+        | some tbl => pure (t1, tbl.rows)
+    else pure (t1, table.rows)
+  else pure (t, table.rows)
+
+/-- Terminal.py:234-235 -/
+def ownStep (t : Term) (kv : KeyVals) : KeyVals :=
+  match t.pOwn with | some o => kv.set Feat.own o | none => kv
+
 /-- everything `decline` does for N, D, Pro before calling `bestMatch` on a table of ≠ 1 rows: the terminal
     (possibly with another lemma after a majestic substitution), the rows in force and the request -/
 def prepareNDP (rules : Rules) (lex : Lex) (t : Term) (table : Table) (g n : FV) (setPerson : Bool) :
     Except Crash (Term × List Row × KeyVals) := do
-  let pe : Int ← (if setPerson then (match t.getPe with | .none => pure 3 | p => intOf p) else pure 3)
-  let kv : KeyVals := if setPerson then [(Feat.pe, .int pe), (Feat.g, g), (Feat.n, n)] else [(Feat.g, g), (Feat.n, n)]
-  let (t, rows) ← (if t.pos ≠ .N ∧ t.isMajestic then do
-      let (t1, reread) ← checkMajestic rules lex t pe n
-      if reread then
-        match t1.tab with
-        | none => throw Crash.keyError
-        | some tb => match lookup tb rules with
-          | none => throw Crash.keyError
-          | some tbl => pure (t1, tbl.rows)
-      else pure (t1, table.rows)
-    else pure (t, table.rows))
-  let kv := match t.pOwn with | some o => kv.set Feat.own o | none => kv
+  let pe ← reqPerson t setPerson
+  let (t, rows) ← majesticStep rules lex t table pe n
+  let kv := ownStep t (baseKeyVals setPerson pe g n)
   if t.pos = .Pro then do
     let (t, kv) ← proKeyVals t rows g n kv
     pure (t, rows, kv)
@@ -405,6 +433,25 @@ def wMost : Str := "most".toList
 def wPlus : Str := "plus".toList
 def wLe : Str := "le".toList
 
+/-- TerminalEn.py:31-39: the rows in which the comparative is looked up and the stem the ending is attached to: the
+    terminal's own table and stem, or — adverb "without comparative" (`b1`) — the table of the homonymous adjective
+    and the adjective's stem (the adverb's stem minus the ending of the adjective's table);
+    `none`: there is no such adjective -/
+def adjRowsEn (rules : Rules) (lex : Lex) (t : Term) (tb : Str) (table : Table) (stem : Str) :
+    Except Crash (Option (List Row × Str)) :=
+  if tb = "b1".toList then
+    match lookup t.lemma lex with
+    | none => throw Crash.typeError
+    | some info => match lookup "A".toList info with
+      | none => pure none                                   -- adverb without adjective
+      | some aentry => match lookup "tab".toList aentry with
+        | some (LV.str atab) => match lookup atab rules with
+          | some atable =>
+            pure (some (atable.rows, if atable.ending.length > 0 then dropRight stem atable.ending.length else stem))
+          | none => throw Crash.keyError
+        | _ => throw Crash.keyError
+  else pure (some (table.rows, stem))
+
 /-- `TerminalEn.decline_adj_adv` -/
 def declineAdjEn (rules : Rules) (lex : Lex) (t : Term) (tb : Str) (table : Table) (stem : Str) :
     Except Crash Out :=
@@ -417,23 +464,13 @@ def declineAdjEn (rules : Rules) (lex : Lex) (t : Term) (tb : Str) (table : Tabl
       let comp ← mkTerm rules lex .en .Adv (if f = .str "co".toList then wMore else wMost)
       pure ⟨[comp.lemma, t.lemma], t.warns + comp.warns⟩
     else do
-      let rows? : Option (List Row) ← (if tb = "b1".toList then
-          match lookup t.lemma lex with
-          | none => throw Crash.typeError
-          | some info => match lookup "A".toList info with
-            | none => pure none                                   -- adverb without adjective
-            | some aentry => match lookup "tab".toList aentry with
-              | some (LV.str atab) => match lookup atab rules with
-                | some atable => pure (some atable.rows)         -- (the adjective's stem is computed and dropped)
-                | none => throw Crash.keyError
-              | _ => throw Crash.keyError
-        else pure (some table.rows))
+      let rows? ← adjRowsEn rules lex t tb table stem
       match rows? with
       | none => pure ⟨[t.lemma], t.warns⟩
-      | some rows =>
+      | some (rows, st) =>
         match bestMatch rows [(Feat.f, f)] with
         | none => pure ⟨[bracket t.lemma], t.warns + 2⟩
-        | some e => pure ⟨[stem ++ e], t.warns⟩
+        | some e => pure ⟨[st ++ e], t.warns⟩
 
 /-- `specialFRcomp` -/
 def specialFrComp (lemma : Str) : Option Str :=
@@ -441,36 +478,37 @@ def specialFrComp (lemma : Str) : Option Str :=
   else if lemma = "mauvais".toList then some "pire".toList
   else none
 
+/-- TerminalFr.py:27-32 / 35-40: the comparative proper — `meilleur`/`pire` inflected for `bon`/`mauvais`, else
+    `plus` followed by the adjective inflected; realizations and number of warnings of the auxiliary terminals -/
+def frComp (sub : Pos → Str → FV → FV → Except Crash (Str × Nat)) (lemma : Str) (g n : FV) :
+    Except Crash (List Str × Nat) :=
+  match specialFrComp lemma with
+  | some sp => do
+    let (r, w) ← sub .A sp g n
+    pure ([r], w)
+  | none => do
+    let (r1, w1) ← sub .Adv wPlus g n
+    let (r2, w2) ← sub .A lemma g n
+    pure ([r1, r2], w1 + w2)
+
 /-- `TerminalFr.decline_adj_adv`; `sub pos lemma g n` realizes the auxiliary terminal `pos(lemma).g(g).n(n)`
     (`Adv("plus")` without options) and returns its realization and its warnings -/
 def declineAdjFr (sub : Pos → Str → FV → FV → Except Crash (Str × Nat)) (t : Term) (table : Table) (stem : Str) :
     Except Crash Out :=
-  let g := t.getG
-  let n := t.getN
-  match bestMatch table.rows [(Feat.g, g), (Feat.n, n)] with
+  match bestMatch table.rows [(Feat.g, t.getG), (Feat.n, t.getN)] with
   | none => pure ⟨[bracket t.lemma], t.warns + 2⟩
   | some e =>
-    let plain : Except Crash Out := pure ⟨[stem ++ e], t.warns⟩
     match t.pF with
-    | none => plain
-    | some FV.none => plain
-    | some (FV.bool false) => plain
+    | none => pure ⟨[stem ++ e], t.warns⟩
+    | some FV.none => pure ⟨[stem ++ e], t.warns⟩
+    | some (FV.bool false) => pure ⟨[stem ++ e], t.warns⟩
     | some f =>
-      let adj : Except Crash (List Str × Nat) :=
-        match specialFrComp t.lemma with
-        | some sp => do
-          let (r, w) ← sub .A sp g n
-          pure ([r], w)
-        | none => do
-          let (r1, w1) ← sub .Adv wPlus g n
-          let (r2, w2) ← sub .A t.lemma g n
-          pure ([r1, r2], w1 + w2)
       if f = .str "co".toList then do
-        let (rs, w) ← adj
+        let (rs, w) ← frComp sub t.lemma t.getG t.getN
         pure ⟨rs, t.warns + w⟩
       else if f = .str "su".toList then do
-        let (r0, w0) ← sub .D wLe g n
-        let (rs, w) ← adj
+        let (r0, w0) ← sub .D wLe t.getG t.getN
+        let (rs, w) ← frComp sub t.lemma t.getG t.getN
         pure ⟨r0 :: rs, t.warns + w0 + w⟩
       else pure ⟨[], t.warns⟩
 
